@@ -6,7 +6,6 @@
 package zzsimrt
 
 import (
-	"bytes"
 	"io"
 	"io/fs"
 	"os"
@@ -38,54 +37,34 @@ func Stdin() io.Reader {
 	return os.Stdin
 }
 
-// File is what the library gets from Open: the simulated file's content, or the
-// real file when no simulation serves the name.
-type File struct {
-	name string
-	data *bytes.Reader
-	size int64
-	real *os.File
-}
-
 // Open is os.Open through the same seam as ReadFile (the open is the read
-// event: that is when the simulated storage decides what the file holds).
-func Open(name string) (*File, error) {
+// event: that is when the simulated storage decides what the file holds). The
+// library gets a real *os.File - an unlinked temporary file holding the simulated
+// content - so that code naming the type, seeking or stat-ing it compiles and
+// behaves as with any file.
+func Open(name string) (*os.File, error) {
 	if f := ReadFileFunc; f != nil {
 		if data, err, ok := f(name); ok {
 			if err != nil {
 				return nil, &fs.PathError{Op: "open", Path: name, Err: err}
 			}
-			return &File{name: name, data: bytes.NewReader(data), size: int64(len(data))}, nil
+			tf, terr := os.CreateTemp("", "zzsim-open-*")
+			if terr != nil {
+				return nil, &fs.PathError{Op: "open", Path: name, Err: terr}
+			}
+			os.Remove(tf.Name())
+			if _, werr := tf.Write(data); werr != nil {
+				tf.Close()
+				return nil, &fs.PathError{Op: "open", Path: name, Err: werr}
+			}
+			if _, serr := tf.Seek(0, io.SeekStart); serr != nil {
+				tf.Close()
+				return nil, &fs.PathError{Op: "open", Path: name, Err: serr}
+			}
+			return tf, nil
 		}
 	}
-	rf, err := os.Open(name)
-	if err != nil {
-		return nil, err
-	}
-	return &File{name: name, real: rf}, nil
-}
-
-func (f *File) Read(p []byte) (int, error) {
-	if f.real != nil {
-		return f.real.Read(p)
-	}
-	return f.data.Read(p)
-}
-
-func (f *File) Close() error {
-	if f.real != nil {
-		return f.real.Close()
-	}
-	return nil
-}
-
-func (f *File) Name() string { return f.name }
-
-func (f *File) Stat() (fs.FileInfo, error) {
-	if f.real != nil {
-		return f.real.Stat()
-	}
-	return simInfo{f.name, f.size}, nil
+	return os.Open(name)
 }
 
 // Stat and Lstat ask the storage for the file (a read event like any other).
